@@ -142,16 +142,18 @@ class Real:
 
     # ---- initial conditions from a state point ----
     def init_conditions(self, sv, scalar_shape="vec1"):
+        vdt = int if scalar_shape == "int" else float      # "int": integer-valued states given as integer arrays
+
         def sc(x):
-            if scalar_shape == "vec1":
-                return np.array([x], dtype=float)
+            if scalar_shape in ("vec1", "int"):
+                return np.array([x], dtype=vdt if float(x).is_integer() and abs(x) < 1e9 else float)
             if scalar_shape == "zerod":
                 return np.array(x, dtype=float)
             return float(x)
         ic = {}
         for l, v in self.desc.links.items():
-            d = {"rho": np.array([sv[f"rho.{l}.{i}"] for i in range(v["N"])], dtype=float),
-                 "v": np.array([sv[f"v.{l}.{i}"] for i in range(v["N"])], dtype=float)}
+            d = {"rho": np.array([sv[f"rho.{l}.{i}"] for i in range(v["N"])], dtype=vdt),
+                 "v": np.array([sv[f"v.{l}.{i}"] for i in range(v["N"])], dtype=vdt)}
             if v["vsl"] is not None:
                 d["v_ctrl"] = np.array([sv[f"vc.{l}.{k}"] for k in range(len(v["vsl"]))], dtype=float)
             ic[self.links[l]] = d
